@@ -1305,6 +1305,27 @@ WorkerLoop(EpochManager *em0, EpochManager *em1, Cmd *c)
   }
 }
 
+std::atomic<uint64_t> g_long_epoch{0};
+std::atomic<int> g_long_phase{0};  // 1 inside ForwardGlobalEpoch, 2 inside GetProtectedEpochs
+const char *g_crash_prop = "C16";
+void LongCrashHandler(int sig, siginfo_t *, void *);
+
+inline void
+InstallSeqCrashHandler(const char *prop)
+{
+#if !VERIF_ASAN
+  g_crash_prop = prop;
+  struct sigaction sa {};
+  sa.sa_sigaction = &LongCrashHandler;
+  sa.sa_flags = SA_SIGINFO;
+  sigaction(SIGSEGV, &sa, nullptr);
+  sigaction(SIGBUS, &sa, nullptr);
+  sigaction(SIGABRT, &sa, nullptr);
+#else
+  (void)prop;
+#endif
+}
+
 void
 Do(WorkerCtl &w, int op)
 {
@@ -1319,6 +1340,7 @@ Run()
   Rng r;
   r.Seed(g_cfg.seed * 4241 + kN);
   Result res;
+  InstallSeqCrashHandler("C20");
   const uint64_t histories = 6 * g_cfg.scale;
   uint64_t total_forwards = 0, total_checks = 0, max_nodes = 0, boundaries = 0, managers = 0, overwrites = 0;
   std::set<std::string> sigs;
@@ -1350,9 +1372,12 @@ Run()
       if (r.Below(100) < p_forward || nw == 0) {
         const int m = (two_managers && r.Chance(1, 4)) ? 1 : 0;
         tl_cur_mgr = m;
+        g_long_phase.store(1, kRlx);
         em[m]->ForwardGlobalEpoch();
+        g_long_phase.store(0, kRlx);
         tl_cur_mgr = -1;
         ++cur[m];
+        g_long_epoch.store(cur[m], kRlx);
         ++total_forwards;
         if ((cur[m] & 255) == 0) ++boundaries;
         // expected list
@@ -1496,10 +1521,34 @@ Run()
 /*------------------------------------------------------------------------------
  * mode=long : C16 over very many forwards (powers of two up to 2^target)
  *----------------------------------------------------------------------------*/
+// (g_long_epoch / g_long_phase are declared above md::Run)
+
+void
+LongCrashHandler(int sig, siginfo_t *, void *)
+{
+  static std::atomic<int> once{0};
+  if (once.exchange(1) != 0) _exit(4);
+  char buf[1024];
+  const int n = snprintf(buf, sizeof buf,
+                         "RESULT {\"status\":\"crash\",\"counters\":{\"evaluations\":%" PRIu64 ",\"forwards\":%" PRIu64 "},\"strings\":{},\"chaos\":{},"
+                         "\"samples\":[],\"signatures\":[],\"violations\":[{\"prop\":\"%s\",\"key\":\"invalid-memory-access-in-%s-in-a-sequential-history\","
+                         "\"detail\":\"signal %d inside %s on a manager without any guard; last completed epoch %" PRIu64 " (0x%" PRIx64 ")\",\"count\":1}],"
+                         "\"observations\":{}}\n",
+                         g_long_epoch.load(), g_long_epoch.load(), g_crash_prop, g_long_phase.load() == 1 ? "ForwardGlobalEpoch" : "GetProtectedEpochs", sig,
+                         g_long_phase.load() == 1 ? "ForwardGlobalEpoch" : (g_long_phase.load() == 2 ? "GetProtectedEpochs" : "the monitor"),
+                         g_long_epoch.load(), g_long_epoch.load());
+  if (n > 0) {
+    const auto w = write(1, buf, static_cast<size_t>(n));
+    (void)w;
+  }
+  _exit(0);
+}
+
 int
 RunLong()
 {
   Result res;
+  InstallSeqCrashHandler("C16");
   const uint64_t target = (1ULL << g_cfg.scale) + 4096;  // scale = log2 of the epoch to cross
   auto *em = new (g_em_storage[0]) EpochManager{};
   const auto base_nodes = g_aligned_live.load();
@@ -1509,8 +1558,11 @@ RunLong()
   bool stop = false;
   std::set<std::string> sigs;
   while (cur < target && !stop) {
+    g_long_phase.store(1, kRlx);
     em->ForwardGlobalEpoch();
+    g_long_phase.store(0, kRlx);
     ++cur;
+    g_long_epoch.store(cur, kRlx);
     const auto c = em->GetCurrentEpoch();
     if (c != cur) {
       Violate("C16", "epoch-did-not-advance-by-exactly-one", Fmt("after %" PRIu64 " forwards GetCurrentEpoch()=%zu, expected %" PRIu64, cur - EpochManager::kInitialEpoch, c, cur));
@@ -1525,7 +1577,9 @@ RunLong()
       sigs.insert(Fmt("long:crossed-2^%d", 63 - __builtin_clzll(cur)));
     }
     if (near_pow || (cur & 0xFFF) == 0) {
+      g_long_phase.store(2, kRlx);
       auto &&[g, l] = em->GetProtectedEpochs();
+      g_long_phase.store(0, kRlx);
       ++full_checks;
       if (g.GetProtectedEpoch() != cur || l != std::vector<size_t>{cur, cur - 1} || em->GetMinEpoch() != cur - 1) {
         Violate("C16", "list-or-min-epoch-wrong-after-many-forwards",
